@@ -288,44 +288,48 @@ def missing_power(blocks, b1, include_equal):
     """None when every prime power below b1 (and every prime <= b1 if include_equal) divides prod(blocks), else a
     prime power that does not.
     Fast path: the blocks of a correct implementation are products of powers of consecutive primes, so they are
-    factored by walking the prime list once.  Any block that does not have this shape sends the case to the general
-    path (bounded cost): the product E of all blocks is tested against the first 300 required prime powers and a
-    deterministic sample of 300 others, then against the product of all of them."""
+    factored by walking the prime list once (with a look-ahead of 8 primes; whatever is left of a block after that is
+    ignored).  This gives lower bounds for the valuations: if they already meet every requirement the answer is None.
+    Otherwise the exact general path decides (bounded cost): the product E of all blocks is tested against the first 300
+    required prime powers and a deterministic sample of 300 others, then against the product of all of them."""
     req = required_powers(b1, include_equal)
     plist = [p for p, _ in req]
     n = len(plist)
     val = {}
     j = 0
-    clean = True
     for blk in blocks:
         r = blk
         if r == 0:
             return (0, 0)
-        while r > 1:
-            if j >= n:
-                clean = False
-                break
+        while r > 1 and j < n:
             p = plist[j]
             if r % p != 0:
-                clean = False
-                break
+                for t in range(j + 1, min(j + 9, n)):
+                    if r % plist[t] == 0:
+                        j = t
+                        break
+                else:
+                    break               # foreign factor left: ignored (lower bound)
+                p = plist[j]
             while r % p == 0:
                 r //= p
                 val[p] = val.get(p, 0) + 1
             j += 1
-        if not clean:
+    miss = None
+    for p, q in req:
+        e = 0
+        t = q
+        while t > 1:
+            t //= p
+            e += 1
+        if val.get(p, 0) < e:
+            miss = (p, q)
             break
-    if clean:
-        for p, q in req:
-            e = 0
-            t = q
-            while t > 1:
-                t //= p
-                e += 1
-            if val.get(p, 0) < e:
-                return (p, q)
+    if miss is None:
         return None
     E = product(blocks)
+    if E % miss[1]:
+        return miss
     import random as _r
     rr = _r.Random(b1)
     sample = req[:300] + (rr.sample(req[300:], min(300, len(req) - 300)) if len(req) > 300 else [])
